@@ -363,15 +363,18 @@ func visitInstr(fr *frame, instr ssa.Instruction) continuation {
 		fr.env[instr] = fr.index(instr)
 
 	case *ssa.Lookup:
-		fr.env[instr] = lookup(instr, fr.get(instr.X), fr.concDeep(fr.get(instr.Index)))
+		fr.env[instr] = fr.mapLookup(instr, fr.get(instr.X), fr.get(instr.Index))
 
 	case *ssa.MapUpdate:
 		m := fr.get(instr.Map)
-		key := fr.concDeep(fr.get(instr.Key))
+		key := fr.get(instr.Key)
 		v := fr.get(instr.Value)
 		switch m := m.(type) {
 		case *hashmap:
-			m.insert(key, v)
+			if m == nil {
+				panic(targetPanic{iface{fr.i.runtimeErrorString, "assignment to entry in nil map"}})
+			}
+			fr.mapUpdate(m, key, v)
 		default:
 			panic(fmt.Sprintf("illegal map type: %T", m))
 		}
